@@ -94,7 +94,8 @@ def observe(net, c, names, extra=True, reverse=False, encode=None):
             return run_w
         for meth in ("link_attribute", "outdegree", "indegree", "degree", "bildegree",
                      "local_cyclemotif_clustering", "local_midmotif_clustering", "local_inmotif_clustering",
-                     "local_outmotif_clustering", "path_lengths"):
+                     "local_outmotif_clustering", "average_path_length", "closeness", "global_efficiency",
+                     "path_lengths"):
             rec(meth + "(c)", weighted(meth))
     run()
     return m, x
